@@ -139,31 +139,71 @@ def clock (now : Option Nat) : Option (Bytes × Bytes) :=
 def contentSha256 (body : Option Bytes) : Option Bytes :=
   hexify (Sha256.hash (match body with | some b => b | none => []))
 
+/-- the `Authorization` value all three `*_headers` functions build:
+    `"AWS4-HMAC-SHA256 " "Credential=%s/%s/%s/<service>/aws4_request," "SignedHeaders=<names>," "Signature=%s"` -/
+def authValue (keyId date region service signedNames sig : Bytes) : Bytes :=
+  lit "AWS4-HMAC-SHA256 " ++
+  lit "Credential=" ++ keyId ++ lit "/" ++ date ++ lit "/" ++ region ++ lit "/" ++ service ++ lit "/aws4_request," ++
+  lit "SignedHeaders=" ++ signedNames ++ lit "," ++
+  lit "Signature=" ++ sig
+
+/-- `(path[0] == '\0') ? "/" : path` — the canonical-URI argument of both S3 functions -/
+def s3CanonicalPath (path : Bytes) : Bytes :=
+  match path with
+  | [] => lit "/"
+  | _ :: _ => path
+
+/-- canonical request of `aws_sign_s3_headers`:
+    `"%s\n" "%s\n" "\n" "host:%s.s3.amazonaws.com\n" "x-amz-content-sha256:%s\n" "x-amz-date:%s\n" "\n"
+     "host;x-amz-content-sha256;x-amz-date\n" "%s"` with
+    `method, (path[0] == '\0') ? "/" : path, bucket, content_sha256, datetime, content_sha256` -/
+def s3HeadersCreq (method bucket path sha datetime : Bytes) : Bytes :=
+  method ++ lit "\n" ++
+  s3CanonicalPath path ++ lit "\n" ++
+  lit "\n" ++
+  lit "host:" ++ bucket ++ lit ".s3.amazonaws.com\n" ++
+  lit "x-amz-content-sha256:" ++ sha ++ lit "\n" ++
+  lit "x-amz-date:" ++ datetime ++ lit "\n" ++
+  lit "\n" ++
+  lit "host;x-amz-content-sha256;x-amz-date\n" ++
+  sha
+
 /-- `aws_sign_s3_headers(key_id, key_secret, region, method, bucket, path, body, bodylen, …)` -/
 def s3Headers (keyId secret region method bucket path : Bytes) (body : Option Bytes)
     (now : Option Nat) : Option Headers :=
   match clock now, contentSha256 body with
   | some (date, datetime), some sha =>
-    let creq :=
-      method ++ lit "\n" ++
-      path ++ lit "\n" ++
-      lit "\n" ++
-      lit "host:" ++ bucket ++ lit ".s3.amazonaws.com\n" ++
-      lit "x-amz-content-sha256:" ++ sha ++ lit "\n" ++
-      lit "x-amz-date:" ++ datetime ++ lit "\n" ++
-      lit "\n" ++
-      lit "host;x-amz-content-sha256;x-amz-date\n" ++
-      sha
-    match awsSign secret date datetime region (lit "s3") creq with
+    match awsSign secret date datetime region (lit "s3") (s3HeadersCreq method bucket path sha datetime) with
     | none => none
     | some sig =>
       some { xAmzContentSha256 := sha, xAmzDate := datetime,
-             authorization :=
-               lit "AWS4-HMAC-SHA256 " ++
-               lit "Credential=" ++ keyId ++ lit "/" ++ date ++ lit "/" ++ region ++ lit "/s3/aws4_request," ++
-               lit "SignedHeaders=host;x-amz-content-sha256;x-amz-date," ++
-               lit "Signature=" ++ sig }
+             authorization := authValue keyId date region (lit "s3")
+               (lit "host;x-amz-content-sha256;x-amz-date") sig }
   | _, _ => none
+
+/-- the five parameters of `aws_sign_s3_querystr`, as both of its `asprintf` calls spell them:
+    `"X-Amz-Algorithm=AWS4-HMAC-SHA256&" "X-Amz-Credential=%s%%2F%s%%2F%s%%2F%s%%2Faws4_request&"
+     "X-Amz-Date=%s&" "X-Amz-Expires=%d&" "X-Amz-SignedHeaders=host"` with
+    `key_id, date, region, "s3", datetime, expiry` (`%%` prints `%`) -/
+def s3QuerystrParams (keyId date datetime region : Bytes) (expiry : Int) : Bytes :=
+  lit "X-Amz-Algorithm=AWS4-HMAC-SHA256&" ++
+  lit "X-Amz-Credential=" ++ keyId ++ lit "%2F" ++ date ++ lit "%2F" ++ region ++ lit "%2F" ++
+    lit "s3" ++ lit "%2Faws4_request&" ++
+  lit "X-Amz-Date=" ++ datetime ++ lit "&" ++
+  lit "X-Amz-Expires=" ++ decimal expiry ++ lit "&" ++
+  lit "X-Amz-SignedHeaders=host"
+
+/-- canonical request of `aws_sign_s3_querystr`:
+    `"%s\n" "%s\n" <params> "\n" "host:%s.s3.amazonaws.com\n" "\n" "host\n" "UNSIGNED-PAYLOAD"` with
+    `method, (path[0] == '\0') ? "/" : path, …, bucket` -/
+def s3QuerystrCreq (method bucket path params : Bytes) : Bytes :=
+  method ++ lit "\n" ++
+  s3CanonicalPath path ++ lit "\n" ++
+  params ++ lit "\n" ++
+  lit "host:" ++ bucket ++ lit ".s3.amazonaws.com\n" ++
+  lit "\n" ++
+  lit "host\n" ++
+  lit "UNSIGNED-PAYLOAD"
 
 /-- `aws_sign_s3_querystr(key_id, key_secret, region, method, bucket, path, expiry)`;
     `expiry` is a C `int` -/
@@ -172,79 +212,65 @@ def s3Querystr (keyId secret region method bucket path : Bytes) (expiry : Int)
   match clock now with
   | none => none
   | some (date, datetime) =>
-    -- the five parameters, as both asprintf calls spell them ("%%2F" prints "%2F")
-    let params :=
-      lit "X-Amz-Algorithm=AWS4-HMAC-SHA256&" ++
-      lit "X-Amz-Credential=" ++ keyId ++ lit "%2F" ++ date ++ lit "%2F" ++ region ++ lit "%2F" ++
-        lit "s3" ++ lit "%2Faws4_request&" ++
-      lit "X-Amz-Date=" ++ datetime ++ lit "&" ++
-      lit "X-Amz-Expires=" ++ decimal expiry ++ lit "&" ++
-      lit "X-Amz-SignedHeaders=host"
-    let creq :=
-      method ++ lit "\n" ++
-      path ++ lit "\n" ++
-      params ++ lit "\n" ++
-      lit "host:" ++ bucket ++ lit ".s3.amazonaws.com\n" ++
-      lit "\n" ++
-      lit "host\n" ++
-      lit "UNSIGNED-PAYLOAD"
-    match awsSign secret date datetime region (lit "s3") creq with
+    let params := s3QuerystrParams keyId date datetime region expiry
+    match awsSign secret date datetime region (lit "s3") (s3QuerystrCreq method bucket path params) with
     | none => none
     | some sig => some (params ++ lit "&" ++ lit "X-Amz-Signature=" ++ sig)
+
+/-- canonical request of `aws_sign_svc_headers`:
+    `"POST\n" "/\n" "\n" "host:%s.%s.amazonaws.com\n" "x-amz-content-sha256:%s\n" "x-amz-date:%s\n" "\n"
+     "host;x-amz-content-sha256;x-amz-date\n" "%s"` with `svc, region, content_sha256, datetime, content_sha256` -/
+def svcHeadersCreq (region svc sha datetime : Bytes) : Bytes :=
+  lit "POST\n" ++
+  lit "/\n" ++
+  lit "\n" ++
+  lit "host:" ++ svc ++ lit "." ++ region ++ lit ".amazonaws.com\n" ++
+  lit "x-amz-content-sha256:" ++ sha ++ lit "\n" ++
+  lit "x-amz-date:" ++ datetime ++ lit "\n" ++
+  lit "\n" ++
+  lit "host;x-amz-content-sha256;x-amz-date\n" ++
+  sha
 
 /-- `aws_sign_svc_headers(key_id, key_secret, region, svc, body, bodylen, …)` -/
 def svcHeaders (keyId secret region svc : Bytes) (body : Option Bytes) (now : Option Nat) :
     Option Headers :=
   match clock now, contentSha256 body with
   | some (date, datetime), some sha =>
-    let creq :=
-      lit "POST\n" ++
-      lit "/\n" ++
-      lit "\n" ++
-      lit "host:" ++ svc ++ lit "." ++ region ++ lit ".amazonaws.com\n" ++
-      lit "x-amz-content-sha256:" ++ sha ++ lit "\n" ++
-      lit "x-amz-date:" ++ datetime ++ lit "\n" ++
-      lit "\n" ++
-      lit "host;x-amz-content-sha256;x-amz-date\n" ++
-      sha
-    match awsSign secret date datetime region svc creq with
+    match awsSign secret date datetime region svc (svcHeadersCreq region svc sha datetime) with
     | none => none
     | some sig =>
       some { xAmzContentSha256 := sha, xAmzDate := datetime,
-             authorization :=
-               lit "AWS4-HMAC-SHA256 " ++
-               lit "Credential=" ++ keyId ++ lit "/" ++ date ++ lit "/" ++ region ++ lit "/" ++ svc ++
-                 lit "/aws4_request," ++
-               lit "SignedHeaders=host;x-amz-content-sha256;x-amz-date," ++
-               lit "Signature=" ++ sig }
+             authorization := authValue keyId date region svc
+               (lit "host;x-amz-content-sha256;x-amz-date") sig }
   | _, _ => none
+
+/-- canonical request of `aws_sign_dynamodb_headers`:
+    `"POST\n" "/\n" "\n" "host:dynamodb.%s.amazonaws.com\n" "x-amz-content-sha256:%s\n" "x-amz-date:%s\n"
+     "x-amz-target:DynamoDB_20120810.%s\n" "\n" "host;x-amz-content-sha256;x-amz-date;x-amz-target\n" "%s"`
+    with `region, content_sha256, datetime, op, content_sha256` -/
+def dynamodbHeadersCreq (region op sha datetime : Bytes) : Bytes :=
+  lit "POST\n" ++
+  lit "/\n" ++
+  lit "\n" ++
+  lit "host:dynamodb." ++ region ++ lit ".amazonaws.com\n" ++
+  lit "x-amz-content-sha256:" ++ sha ++ lit "\n" ++
+  lit "x-amz-date:" ++ datetime ++ lit "\n" ++
+  lit "x-amz-target:DynamoDB_20120810." ++ op ++ lit "\n" ++
+  lit "\n" ++
+  lit "host;x-amz-content-sha256;x-amz-date;x-amz-target\n" ++
+  sha
 
 /-- `aws_sign_dynamodb_headers(key_id, key_secret, region, op, body, bodylen, …)` -/
 def dynamodbHeaders (keyId secret region op : Bytes) (body : Option Bytes) (now : Option Nat) :
     Option Headers :=
   match clock now, contentSha256 body with
   | some (date, datetime), some sha =>
-    let creq :=
-      lit "POST\n" ++
-      lit "/\n" ++
-      lit "\n" ++
-      lit "host:dynamodb." ++ region ++ lit ".amazonaws.com\n" ++
-      lit "x-amz-content-sha256:" ++ sha ++ lit "\n" ++
-      lit "x-amz-date:" ++ datetime ++ lit "\n" ++
-      lit "x-amz-target:DynamoDB_20120810." ++ op ++ lit "\n" ++
-      lit "\n" ++
-      lit "host;x-amz-content-sha256;x-amz-date;x-amz-target\n" ++
-      sha
-    match awsSign secret date datetime region (lit "dynamodb") creq with
+    match awsSign secret date datetime region (lit "dynamodb") (dynamodbHeadersCreq region op sha datetime) with
     | none => none
     | some sig =>
       some { xAmzContentSha256 := sha, xAmzDate := datetime,
-             authorization :=
-               lit "AWS4-HMAC-SHA256 " ++
-               lit "Credential=" ++ keyId ++ lit "/" ++ date ++ lit "/" ++ region ++
-                 lit "/dynamodb/aws4_request," ++
-               lit "SignedHeaders=host;x-amz-content-sha256;x-amz-date;x-amz-target," ++
-               lit "Signature=" ++ sig }
+             authorization := authValue keyId date region (lit "dynamodb")
+               (lit "host;x-amz-content-sha256;x-amz-date;x-amz-target") sig }
   | _, _ => none
 
 end Percival.Model.AwsSign
